@@ -20,6 +20,12 @@ CHECK_DEADLOCK FALSE
     v.add_tlc("Runtime contract: " + note, r, consts.replace("\n", " "))
     if r.violation:
         v.spec_violation("Runtime", r)
+    if "Starts = {0}" not in consts:
+        # the BinaryHeap backend's initial "current instant" (differs only for non-zero start times)
+        r = tlc("MC_Runtime", cfg.replace("HeapInit = FALSE", "HeapInit = TRUE"), wd)
+        v.add_tlc("Runtime contract (HeapInit): " + note, r, consts.replace("\n", " ").replace("HeapInit = FALSE", "HeapInit = TRUE"))
+        if r.violation:
+            v.spec_violation("Runtime (HeapInit)", r)
 
 
 def gen_replay(v, wd, tier, prop, consts, max_tick, what, fields=None, tag="g"):
@@ -55,6 +61,28 @@ CHECK_DEADLOCK FALSE
                         m, {"suite": "rt", "field": f})
     if int(tot.get("mismatch_count", 0)):
         v.cov["replay_mismatches"] = v.cov.get("replay_mismatches", 0) + int(tot["mismatch_count"])
+    # the BinaryHeap backend (des built without the `cqueue` feature) against the contract with HeapInit = TRUE; the queue
+    # parameters of the grid are meaningless there, the embeddings are not
+    vlib.build_harness_heap()
+    behh = os.path.join(wd, f"beh_{tag}_heap.txt")
+    rh = tlc("Gen_Runtime", cfg.replace("HeapInit = FALSE", "HeapInit = TRUE"), wd, printed_to=behh)
+    if not rh.ok:
+        raise vlib.ToolError("Gen_Runtime (HeapInit) failed:\n" + rh.tail)
+    shards_h, total_h = vlib.shard_lines(behh, wd, vlib.NCPU, prefix=f"sh_{tag}_heap_")
+    outs = vlib.run_vh_parallel([["rt", "replay", s, "--tier", "quick", "--max-tick", str(max_tick)] for s in shards_h], binary=vlib.VHH)
+    toth = vlib.collect(v, outs, "rt", "replaying Runtime behaviours on the BinaryHeap backend")
+    v.cov["traces_validated_against_impl"] += int(toth.get("replays", 0))
+    v.cov["evaluations"] += int(toth.get("checks", 0))
+    v.cov["gen_runs"][-1]["heap_backend_replays"] = int(toth.get("replays", 0))
+    seen = set()
+    for m in toth.get("mismatches", []):
+        f = m.get("field")
+        if f in seen:
+            continue
+        seen.add(f)
+        m["backend"] = "heap"
+        v.add_violation(f"Runtime on the BinaryHeap backend deviates from the contract: {f} (expected {m.get('expected')}, got {m.get('got')}) "
+                        f"under {m.get('cfg')}", m, {"suite": "rt", "field": f, "backend": "heap"})
     return total
 
 
@@ -65,12 +93,15 @@ def record_validate(v, wd, tier, prop):
     import c_fes
     runs = 25 if tier == "quick" else 250
     files = [os.path.join(wd, f"rtrace{i}.ndjson") for i in range(vlib.NCPU)]
-    outs = vlib.run_vh_parallel([["rt", "record", "--seed", str(vlib.seed() * 1000 + i), "--runs", str(runs), "--out", f]
-                                 for i, f in enumerate(files)])
+    # the second half of the recordings comes from the BinaryHeap backend
+    vlib.build_harness_heap()
+    half = len(files) // 2
+    cmds = [["rt", "record", "--seed", str(vlib.seed() * 1000 + i), "--runs", str(runs), "--out", f] for i, f in enumerate(files)]
+    outs = vlib.run_vh_parallel(cmds[:half]) + vlib.run_vh_parallel(cmds[half:], binary=vlib.VHH)
     tot = vlib.collect(v, outs, "rt", "running random programs")
     for m in tot.get("mismatches", [])[:3]:
         v.add_violation(f"random program: {m.get('field')}", m, {"suite": "rt", "field": m.get("field")})
-    consts = "MaxT = 100000 MaxId = 100000 MaxSteps = 100000 MaxExt = 100000 Menu = {} Seed = TRUE Starts = {0} Limits = {}"
+    consts = "MaxT = 100000 MaxId = 100000 MaxSteps = 100000 MaxExt = 100000 Menu = {} Seed = TRUE Starts = {0} Limits = {} HeapInit = FALSE"
 
     def one(i):
         if "crash" in outs[i] or "hang" in outs[i] or not os.path.exists(files[i]):
@@ -79,14 +110,15 @@ def record_validate(v, wd, tier, prop):
     with ThreadPoolExecutor(max_workers=8) as ex:
         results = list(ex.map(one, range(len(files))))
     acc = 0
-    for a, rej, r in results:
+    for idx, (a, rej, r) in enumerate(results):
         acc += a
         if r is not None:
             v.add_tlc("Trace_Runtime validation", r)
         for x in rej:
             i = x["first_unmatched_line_in_run"]
-            v.add_violation(f"recorded run of the real Runtime is not a behaviour of Runtime.tla: first unmatched line {i}: "
-                            f"{json.dumps(x['run'][i - 1])[:300]}", x, {"suite": "rt", "kind": "trace"})
+            x["backend"] = "heap" if idx >= half else "cqueue"
+            v.add_violation(f"recorded run of the real Runtime ({x['backend']} backend) is not a behaviour of Runtime.tla: first unmatched "
+                            f"line {i}: {json.dumps(x['run'][i - 1])[:300]}", x, {"suite": "rt", "kind": "trace", "backend": x["backend"]})
     v.cov["traces_validated_against_impl"] += acc
     v.cov["recorded_runs_accepted"] = acc
     log(f"[{prop}] Trace_Runtime: {acc} recorded random programs accepted")
@@ -96,16 +128,16 @@ def c02(tier):
     v = Verdict("C02", tier)
     vlib.build_harness()
     wd = workdir("C02")
-    mc(v, wd, "MaxT = 3 MaxId = 3 MaxSteps = 2 MaxExt = 2\n Menu <- MenuPast Seed = TRUE Starts = {0, 2} Limits <- LimitsSome", "clock / accept-reject rules")
+    mc(v, wd, "MaxT = 3 MaxId = 3 MaxSteps = 2 MaxExt = 2\n Menu <- MenuPast Seed = TRUE Starts = {0, 2} Limits <- LimitsSome HeapInit = FALSE", "clock / accept-reject rules")
     if tier == "quick":
-        gen_replay(v, wd, tier, "C02", "MaxT = 3 MaxId = 3 MaxSteps = 1 MaxExt = 2\n Menu <- MenuPast Seed = TRUE Starts = {0, 2} Limits <- LimitsNone", 8,
+        gen_replay(v, wd, tier, "C02", "MaxT = 3 MaxId = 3 MaxSteps = 1 MaxExt = 2\n Menu <- MenuPast Seed = TRUE Starts = {0, 2} Limits <- LimitsNone HeapInit = FALSE", 8,
                    "programs with past/present/future adds, start in {0,2}")
-        gen_replay(v, wd, tier, "C02", "MaxT = 2 MaxId = 3 MaxSteps = 2 MaxExt = 1\n Menu <- MenuSmall Seed = TRUE Starts = {0} Limits <- LimitsNone", 8,
+        gen_replay(v, wd, tier, "C02", "MaxT = 2 MaxId = 3 MaxSteps = 2 MaxExt = 1\n Menu <- MenuSmall Seed = TRUE Starts = {0} Limits <- LimitsNone HeapInit = FALSE", 8,
                    "external add while paused", tag="g2")
     else:
-        gen_replay(v, wd, tier, "C02", "MaxT = 4 MaxId = 4 MaxSteps = 1 MaxExt = 2\n Menu <- MenuPast Seed = TRUE Starts = {0, 2, 3} Limits <- LimitsNone", 10,
+        gen_replay(v, wd, tier, "C02", "MaxT = 4 MaxId = 4 MaxSteps = 1 MaxExt = 2\n Menu <- MenuPast Seed = TRUE Starts = {0, 2, 3} Limits <- LimitsNone HeapInit = FALSE", 10,
                    "programs with past/present/future adds, start in {0,2,3}")
-        gen_replay(v, wd, tier, "C02", "MaxT = 3 MaxId = 3 MaxSteps = 2 MaxExt = 3\n Menu <- MenuPast Seed = TRUE Starts = {0, 2} Limits <- LimitsNone", 8,
+        gen_replay(v, wd, tier, "C02", "MaxT = 3 MaxId = 3 MaxSteps = 2 MaxExt = 3\n Menu <- MenuPast Seed = TRUE Starts = {0, 2} Limits <- LimitsNone HeapInit = FALSE", 8,
                    "external adds while paused", tag="g2")
     record_validate(v, wd, tier, "C02")
     v.cov["rule"] = ("every behaviour of Runtime.tla in the bound (program = handler follow-up lists chosen by TLC, external adds at "
@@ -120,7 +152,7 @@ def c10(tier):
     v = Verdict("C10", tier)
     vlib.build_harness()
     wd = workdir("C10")
-    mc(v, wd, "MaxT = 3 MaxId = 3 MaxSteps = 3 MaxExt = 2\n Menu <- MenuSmall Seed = TRUE Starts = {0} Limits <- LimitsSome", "stepping")
+    mc(v, wd, "MaxT = 3 MaxId = 3 MaxSteps = 3 MaxExt = 2\n Menu <- MenuSmall Seed = TRUE Starts = {0} Limits <- LimitsSome HeapInit = FALSE", "stepping")
     # mechanism: dispatch_event with peek (the repaired code) keeps order and queue time across pauses
     consts = "Fixed = TRUE MaxEv = 5 MaxT = 2 MaxCalls = 3" if tier == "quick" else "Fixed = TRUE MaxEv = 6 MaxT = 3 MaxCalls = 4"
     r = tlc("RuntimeMech", f"CONSTANTS {consts}\nSPECIFICATION Spec\nINVARIANT PausedAcceptsLegalAdds\n"
@@ -129,12 +161,12 @@ def c10(tier):
     if r.violation:
         v.spec_violation("RuntimeMech", r)
     if tier == "quick":
-        gen_replay(v, wd, tier, "C10", "MaxT = 2 MaxId = 3 MaxSteps = 3 MaxExt = 1\n Menu <- MenuSmall Seed = TRUE Starts = {0} Limits <- LimitsNone", 8,
+        gen_replay(v, wd, tier, "C10", "MaxT = 2 MaxId = 3 MaxSteps = 3 MaxExt = 1\n Menu <- MenuSmall Seed = TRUE Starts = {0} Limits <- LimitsNone HeapInit = FALSE", 8,
                    "all step schedules (<=3 calls) of tie-heavy programs, one external add anywhere")
     else:
-        gen_replay(v, wd, tier, "C10", "MaxT = 2 MaxId = 3 MaxSteps = 3 MaxExt = 2\n Menu <- MenuSmall Seed = TRUE Starts = {0} Limits <- LimitsNone", 8,
+        gen_replay(v, wd, tier, "C10", "MaxT = 2 MaxId = 3 MaxSteps = 3 MaxExt = 2\n Menu <- MenuSmall Seed = TRUE Starts = {0} Limits <- LimitsNone HeapInit = FALSE", 8,
                    "all step schedules (<=3 calls), two external adds anywhere")
-        gen_replay(v, wd, tier, "C10", "MaxT = 2 MaxId = 4 MaxSteps = 3 MaxExt = 1\n Menu <- MenuTies Seed = TRUE Starts = {0} Limits <- LimitsNone", 8,
+        gen_replay(v, wd, tier, "C10", "MaxT = 2 MaxId = 4 MaxSteps = 3 MaxExt = 1\n Menu <- MenuTies Seed = TRUE Starts = {0} Limits <- LimitsNone HeapInit = FALSE", 8,
                    "tie-heavy programs", tag="g2")
     record_validate(v, wd, tier, "C10")
     v.cov["rule"] = ("every way of cutting the run of every program in the bound into dispatch_n_events / dispatch_events_until / "
@@ -148,12 +180,12 @@ def c11(tier):
     v = Verdict("C11", tier)
     vlib.build_harness()
     wd = workdir("C11")
-    mc(v, wd, "MaxT = 3 MaxId = 3 MaxSteps = 1 MaxExt = 2\n Menu <- MenuSmall Seed = TRUE Starts = {0, 2} Limits <- LimitsAll", "limits")
+    mc(v, wd, "MaxT = 3 MaxId = 3 MaxSteps = 1 MaxExt = 2\n Menu <- MenuSmall Seed = TRUE Starts = {0, 2} Limits <- LimitsAll HeapInit = FALSE", "limits")
     if tier == "quick":
-        gen_replay(v, wd, tier, "C11", "MaxT = 2 MaxId = 3 MaxSteps = 1 MaxExt = 1\n Menu <- MenuSmall Seed = TRUE Starts = {0} Limits <- LimitsAll", 8,
+        gen_replay(v, wd, tier, "C11", "MaxT = 2 MaxId = 3 MaxSteps = 1 MaxExt = 1\n Menu <- MenuSmall Seed = TRUE Starts = {0} Limits <- LimitsAll HeapInit = FALSE", 8,
                    "all programs x 20 limit trees")
     else:
-        gen_replay(v, wd, tier, "C11", "MaxT = 3 MaxId = 4 MaxSteps = 1 MaxExt = 2\n Menu <- MenuSmall Seed = TRUE Starts = {0, 2} Limits <- LimitsAll", 10,
+        gen_replay(v, wd, tier, "C11", "MaxT = 3 MaxId = 4 MaxSteps = 1 MaxExt = 2\n Menu <- MenuSmall Seed = TRUE Starts = {0, 2} Limits <- LimitsAll HeapInit = FALSE", 10,
                    "all programs x 20 limit trees x start times")
     record_validate(v, wd, tier, "C11")
     v.cov["rule"] = ("every program in the bound under each of 20 limit trees (None, EventCount, SimTime, nested And/Or; also built by "
@@ -174,7 +206,10 @@ def _replay(prop, path):
     p = os.path.join(wd, "beh.txt")
     with open(p, "w") as fh:
         fh.write(json.dumps(beh) + "\n")
-    out = vlib.run_vh_parallel([["rt", "replay", p, "--tier", "thorough", "--max-tick", "12"]])[0]
+    heap = viol.get("detail", {}).get("backend") == "heap"
+    if heap:
+        vlib.build_harness_heap()
+    out = vlib.run_vh_parallel([["rt", "replay", p, "--tier", "thorough", "--max-tick", "12"]], binary=vlib.VHH if heap else None)[0]
     log(json.dumps(out)[:3000])
     return 1 if out.get("crash") or out.get("mismatch_count") else 0
 
